@@ -38,7 +38,8 @@ class RunInfo:
     storage: str | dict[OUTPUT_TYPE, str]
     pipefunc_version: str = __version__
 
-    def __post_init__(self) -> None:
+    def _write(self) -> None:
+        # Only called when a run is created; loading a `RunInfo` must not modify the folder
         if self.run_folder is None:
             return
         self.dump()
@@ -68,7 +69,7 @@ class RunInfo:
         _check_inputs(pipeline, inputs)
         internal_shapes = _construct_internal_shapes(internal_shapes, pipeline)
         shapes, masks = map_shapes(pipeline, inputs, internal_shapes)
-        return cls(
+        run_info = cls(
             inputs=inputs,
             defaults=pipeline.defaults,
             all_output_names=pipeline.all_output_names,
@@ -79,6 +80,8 @@ class RunInfo:
             run_folder=run_folder,
             storage=storage,
         )
+        run_info._write()
+        return run_info
 
     def storage_class(self, output_name: OUTPUT_TYPE) -> type[StorageBase]:
         if isinstance(self.storage, str):
